@@ -71,6 +71,12 @@ def library_panic(stderr):
     return None
 
 
+# Thorough tier: how much the seeded parts of each family's generator are multiplied (harness: tierInt * VERIF_DEPTH).
+# Calibrated on this 16-core sandbox so that a thorough run of a property takes roughly 5-10 minutes;
+# VERIF_DEPTH in the environment overrides it.
+DEPTH = {}
+
+
 class Ctx:
     def __init__(self, prop, tier, seed):
         self.prop = prop
@@ -106,6 +112,8 @@ class Ctx:
         e.update(GOENV)
         if os.environ.get("VERIF_COVER"):
             e["GOCOVERDIR"] = os.environ["VERIF_COVER"]
+        if self.thorough and "VERIF_DEPTH" not in e:
+            e["VERIF_DEPTH"] = str(DEPTH.get(self.prop, 1))
         if extra:
             e.update(extra)
         return e
@@ -125,7 +133,7 @@ class Ctx:
         cmd = ["go", "build", "-tags", "verif"] + (["-race"] if race else [])
         if os.environ.get("VERIF_COVER"):
             # development aid (bin/coverage): which library statements do the drivers of this check reach
-            cmd += ["-cover", "-coverpkg=all"]   # a pattern naming the replaced module matches nothing; filter afterwards
+            cmd += ["-cover", "-coverpkg=verif/harness,github.com/cloudflare/pat-go/..."]   # main package included, or nothing is written
         cmd += ["-o", out, "."]
         r = subprocess.run(cmd, cwd=src, env=self.env(), capture_output=True, text=True)
         if r.returncode != 0:
@@ -305,7 +313,16 @@ class Ctx:
                     if k in lines:
                         e = json.loads(line)
                         e["_why"] = lines[k].replace('\\"', '"')
+                        names = re.findall(r'"([^"]+)"', e["_why"])
+                        if names and all(n.startswith("beyond:") for n in names):
+                            # laws the specification states beyond the listed properties: reported, never a verdict
+                            self.observations = getattr(self, "observations", {})
+                            key = e["_why"]
+                            self.observations[key] = self.observations.get(key, 0) + 1
+                            continue
                         out.append((f, k, e))
+        for key, n in sorted(getattr(self, "observations", {}).items()):
+            self.log("  OBSERVATION (beyond the listed properties, not a verdict): %d event(s) fail %s" % (n, key))
         return total, out
 
     def record(self, family, shards=None, extra=None, infile=None, tag="trace", timeout=3600, binary=None, env=None, parts=1):
@@ -471,6 +488,8 @@ class Ctx:
         cov.update(coverage)
         if getattr(self, "proofs", None):
             cov["tlaps_proofs"] = self.proofs
+        if getattr(self, "observations", None):
+            cov["beyond_property_observations"] = self.observations
         if getattr(self, "unconfirmed", 0):
             cov["unconfirmed_rejections"] = self.unconfirmed
         cov.setdefault("traces_validated_against_impl", 0)
